@@ -431,6 +431,12 @@ func (ex *Exec) havocWritesMode(st *State, ws map[string]bool, listed []string, 
 		}
 		old := ex.heapTerm(st, h)
 		nw := ex.havocHeap(st, h)
+		for _, pin := range ex.pins {
+			if pin.heap == h {
+				// shortcut for read-only package-level locations: equal to the entry heap (no frame chain needed)
+				st.assume(eq(sel(nw, pin.ref), sel(ex.entry.heaps[h], pin.ref)))
+			}
+		}
 		x := "x!f"
 		switch h {
 		case mineH:
